@@ -56,6 +56,9 @@ def main():
         return meta
     finally:
         run(["git", "-C", "/repo", "worktree", "remove", "--force", wt])
+        # a run with POX_REPO=<changed tree> lets the translators rewrite lean/PoxModel/Generated from that tree: put the
+        # committed files (generated from /repo) back
+        run(["git", "-C", VERIF, "checkout", "--", "lean/PoxModel/Generated"])
         out = os.path.join(VERIF, "seeded", sid)
         if meta.get("confirmed"):
             os.makedirs(out, exist_ok=True)
